@@ -14,20 +14,20 @@ Definition ex_src2 : str := [64; 102; 58; 50; 124; 43; 59; 51; 8594; 97; 32; 859
 Definition text (l : list (list N)) : str := flat_map (fun x => x ++ [10%N]) l.
 
 Lemma example1 :
-  exists p s, parse_source ex_src1 = Ok p /\ core_ok_list false p = true
+  exists p s, parse_source ex_src1 = Ok p /\ core_program p = true
     /\ run_machine FlNone 12 [] p = XOk s /\ run_ref FlNone 12 [] p = XOk s
     /\ stk s = [] /\ out s = text [[49]; [50]; [54]; [56]]%N.
 Proof. eexists. eexists. split; [vm_compute; reflexivity|]. vm_compute. repeat split; reflexivity. Qed.
 
 Lemma example2 :
-  exists p s, parse_source ex_src2 = Ok p /\ core_ok_list false p = true
+  exists p s, parse_source ex_src2 = Ok p /\ core_program p = true
     /\ run_machine FlNone 12 [] p = XOk s /\ run_ref FlNone 12 [] p = XOk s
     /\ stk s = [] /\ out s = text [[10216; 32; 54; 32; 124; 32; 50; 32; 124; 32; 51; 32; 10217]]%N.
 Proof. eexists. eexists. split; [vm_compute; reflexivity|]. vm_compute. repeat split; reflexivity. Qed.
 
 (* the same first program with inputs and flags: H presets 100, W prints the whole stack *)
 Lemma example3 :
-  exists p s, parse_source [43; 43]%N = Ok p /\ core_ok_list false p = true
+  exists p s, parse_source [43; 43]%N = Ok p /\ core_program p = true
     /\ run_machine FlW 5 [VInt 3; VList [VInt 1; VInt 2]] p = XOk s
     /\ run_ref FlW 5 [VInt 3; VList [VInt 1; VInt 2]] p = XOk s
     /\ out s = text [[10216; 32; 10216; 32; 55; 32; 124; 32; 56; 32; 10217; 32; 10217]]%N.
